@@ -288,6 +288,8 @@ pub fn realise(c: &Case, table: &[(u8, u8)], canonical: bool) -> ModelSpec {
         } else {
             vec![]
         },
+        // every fourth model read with two or more LODs has 1..3 meshes of no LOD's main range behind LOD 0's meshes
+        orphan_meshes: if !canonical && c.seed % 4 == 1 { 1 + ((c.seed >> 20) % 3) as u8 } else { 0 },
     }
 }
 
@@ -464,6 +466,9 @@ fn prop(c: &Case, ctx: &Ctx) -> PResult {
     if c.seed % 7 == 0 {
         ctx.class("terrain-shadow-tables");
     }
+    if c.seed % 4 == 1 && c.lods.len() >= 2 {
+        ctx.class("mesh-table:meshes-of-no-lod-range-between-the-lods");
+    }
     if c.seed % 5 == 0 {
         ctx.class("sections-in-shuffled-physical-order");
     }
@@ -593,6 +598,7 @@ pub fn sweep_spec(variant: u8, v6: bool, canonical: bool) -> ModelSpec {
         ts_meshes: 0,
         ts_submeshes: 0,
         section_order: vec![],
+        orphan_meshes: 0,
     }
 }
 
